@@ -1,4 +1,5 @@
 import PhysisModel.Model.LeRead
+import PhysisModel.Model.Utf8Lossy
 import PhysisModel.Spec.CharDatLayout
 import PhysisModel.Generated.CharDatCodes
 /-!
@@ -13,8 +14,10 @@ the documented offsets.  `Race` / `Gender` / `Tribe` values are represented by t
 binrw writer emits; which bytes the readers accept comes from `Generated/CharDatCodes.lean`,
 dumped from the compiled code on every run (T2).
 
-Assumption: comment bytes of a parsed file are valid UTF-8 (`read_string` unwraps
-`String::from_utf8` — a panic that belongs to C17).
+`read_string` decodes the 164 comment bytes lossily (`String::from_utf8_lossy`, fix a103be4:
+every maximal invalid part becomes U+FFFD, `Model/Utf8Lossy.lean`) and trims NULs at both ends; a
+NUL *inside* the comment survives the read and makes `write_string` (`CString::new(..).unwrap()`)
+panic when the value is written again.
 -/
 namespace Physis.CharDat
 open Physis.LeRead Physis.Generated
@@ -40,8 +43,8 @@ def writeString (s : Bytes) : Option Bytes := if 0 ∈ s then none else some (s 
 def trimNul (s : Bytes) : Bytes :=
   ((s.dropWhile (· == 0)).reverse.dropWhile (· == 0)).reverse
 
-/-- `read_string` on valid UTF-8 -/
-def readString (raw : Bytes) : Bytes := trimNul raw
+/-- `read_string`: `String::from_utf8_lossy(&bytes).trim_matches('\0')` -/
+def readString (raw : Bytes) : Bytes := trimNul (Utf8Lossy.fromUtf8Lossy raw)
 
 /-- `CustomizeData::write_le`: fields in declaration order -/
 def writeCustomize (c : CustomizeData) : Bytes :=
